@@ -100,6 +100,7 @@ func stringLeaf(p typePath) (string, bool) {
 }
 
 type apEvent struct {
+	Cond   bool // reached only under a data-dependent condition (not every element is visited)
 	Call   ssa.CallInstruction
 	In     *ssa.Function
 	Callee string // calleeName or closure name
@@ -108,6 +109,7 @@ type apEvent struct {
 }
 
 type apWalker struct {
+	cond   bool
 	res    *Resolver
 	events []apEvent
 	stack  map[*ssa.Function]int
@@ -187,6 +189,15 @@ func (w *apWalker) pathOfD(v ssa.Value, env apEnv, d int) (string, bool) {
 	case *ssa.Extract:
 		// value of a map/string range: next(range(X))#2 ; lookup with ok: X[k],ok #0
 		switch t := x.Tuple.(type) {
+		case *ssa.Call:
+			// strings.Cut(v, sep): the two halves of a validated-by-parts value
+			if calleeName(t) == "strings.Cut" && x.Index < 2 {
+				b, ok := w.pathOfD(t.Call.Args[0], env, d+1)
+				if ok {
+					return b + map[int]string{0: "#before", 1: "#after"}[x.Index], true
+				}
+			}
+			return "", false
 		case *ssa.Next:
 			if x.Index == 2 {
 				if rg, ok := t.Iter.(*ssa.Range); ok {
@@ -311,8 +322,9 @@ func (w *apWalker) walk(fn *ssa.Function, env apEnv) {
 			}
 		}
 		callees := w.res.Callees(ci)
+		condHere := w.cond || conditionalSite(fn, ci)
 		if any {
-			w.events = append(w.events, apEvent{Call: ci, In: fn, Callee: calleeName(ci), Fns: callees, Paths: paths})
+			w.events = append(w.events, apEvent{Cond: condHere, Call: ci, In: fn, Callee: calleeName(ci), Fns: callees, Paths: paths})
 		}
 		for _, cal := range callees {
 			if w.stop[cal] {
@@ -341,9 +353,64 @@ func (w *apWalker) walk(fn *ssa.Function, env apEnv) {
 					}
 				}
 			}
+			saved := w.cond
+			w.cond = condHere
 			w.walk(cal, cenv)
+			w.cond = saved
 		}
 	}
+}
+
+// conditionalSite: ci is control-dependent on a branch other than a loop
+// condition or an "earlier error → return" guard.
+func conditionalSite(fn *ssa.Function, ci ssa.Instruction) bool {
+	for _, b := range fn.Blocks {
+		iff, ok := terminator(b).(*ssa.If)
+		if !ok || b == ci.Block() && false {
+			continue
+		}
+		if !b.Dominates(ci.Block()) {
+			continue
+		}
+		// does exactly one side lead to ci?
+		r0, _ := reach(Site{b.Succs[0], -1}, isInstr(ci), nil)
+		r1, _ := reach(Site{b.Succs[1], -1}, isInstr(ci), nil)
+		if b == ci.Block() {
+			continue
+		}
+		if r0 && r1 {
+			// both sides can reach ci (loop back edges make this common); check bypass: can the function
+			// leave through a side without executing ci in this iteration?  Approximate by dominance:
+			if !(b.Succs[0].Dominates(ci.Block()) || b.Succs[1].Dominates(ci.Block())) {
+				continue
+			}
+		}
+		if allowedGuard(iff.Cond) {
+			continue
+		}
+		if b.Succs[0].Dominates(ci.Block()) || b.Succs[1].Dominates(ci.Block()) {
+			return true
+		}
+	}
+	return false
+}
+
+func allowedGuard(cond ssa.Value) bool {
+	switch x := cond.(type) {
+	case *ssa.BinOp:
+		if x.Op == token.LSS && isInduction(x.X) {
+			return true
+		}
+		// err != nil / err == nil on an error cell or value
+		if (x.Op == token.NEQ || x.Op == token.EQL) && isNilConst(x.Y) && isErrorType(x.X.Type()) {
+			return true
+		}
+	case *ssa.Extract:
+		if _, ok := x.Tuple.(*ssa.Next); ok && x.Index == 0 {
+			return true
+		}
+	}
+	return false
 }
 
 // pathsInto: the set of access paths passed as argument `arg` (or any
